@@ -37,6 +37,7 @@ ASSUMPTIONS = [
     'JSON numbers are compared as literals; "time", "pid", "ppid", "counter" and "host" are checked for presence and type only',
     'str.isprintable is the table of the CPython that runs the check (Unicode 15.0), regenerated on every run',
     'a message "decodes" when Message.unpack returns without raising under one of the session shapes of the rig (all families with/without ADD-PATH, 2-byte ASN, iBGP, the neighbor of each configuration file)',
+    'the reason of a down event is composed by ExaBGP (codes and its own words): it is exercised with hostile ASCII only (control characters, quotes, line breaks)',
     'text records: the property is read as line count + printable ASCII + expected line prefix; spaces and brackets inside peer text are not escaped by the text format and are not counted as forging',
 ]
 TRUSTED_EXTRA = [
@@ -614,6 +615,8 @@ def gen_cases(ctx: Ctx, rig: R.Rig, seeds: Seeds) -> tuple[list[Iterable[Case]],
                     yield Case('tunnel-name-hostile', 'all', 'message', 2, with_attr(R.attr(0xC0, 23, _join22([(15, _join9012([(st, b'\x00' + h)]))]))), with_attr(R.attr(0xC0, 23, _join22([(15, _join9012([(st, b'\x00x')]))]))), hole=bk, note=f'sub-tlv {st}', encs=ALL)
                 yield Case('tunnel-unknown-hostile', 'all', 'message', 2, with_attr(R.attr(0xC0, 23, _join22([(7, h)]))), None, hole=bk, note='tunnel type 7', encs=ALL)
         for t in R.HOSTILE_TEXT:
+            if not t.isascii():
+                continue  # the reason of a `down` event is written by ExaBGP itself: no peer text beyond ASCII reaches it
             yield Case('down-hostile', 'all', 'state', arg=['down', R.MARK + t + R.MARK], twin_arg=['down', 'x'], hole=R.bucket((R.MARK + t).encode('utf-8', 'surrogatepass')), encs=ALL)
 
     def g_small():
